@@ -1,1 +1,44 @@
-// probe Sound/Effect/Modulator/Decoder implementations
+//! Probe Sound/Effect/Modulator/Decoder implementations and sound-data helpers.
+
+use std::sync::Arc;
+
+use kira::sound::static_sound::{StaticSoundData, StaticSoundSettings};
+use kira::Frame;
+
+/// Static sound whose every frame is `value` on both channels.
+pub fn dc_sound(sample_rate: u32, len: usize, value: f32) -> StaticSoundData {
+	StaticSoundData {
+		sample_rate,
+		frames: (0..len).map(|_| Frame::from_mono(value)).collect::<Vec<_>>().into(),
+		settings: StaticSoundSettings::default(),
+		slice: None,
+	}
+}
+
+/// Static sound whose frame i is (i+1, -(i+1)) * scale: the played index can be read off the output.
+pub fn coded_sound(sample_rate: u32, len: usize, scale: f32) -> StaticSoundData {
+	StaticSoundData {
+		sample_rate,
+		frames: (0..len)
+			.map(|i| Frame::new((i + 1) as f32 * scale, -((i + 1) as f32) * scale))
+			.collect::<Vec<_>>()
+			.into(),
+		settings: StaticSoundSettings::default(),
+		slice: None,
+	}
+}
+
+pub fn sound_from_frames(sample_rate: u32, frames: Vec<Frame>) -> StaticSoundData {
+	StaticSoundData {
+		sample_rate,
+		frames: Arc::from(frames),
+		settings: StaticSoundSettings::default(),
+		slice: None,
+	}
+}
+
+/// deterministic full-scale noise
+pub fn noise_frames(seed: u64, len: usize, amp: f32) -> Vec<Frame> {
+	let mut r = crate::util::Rng::new(seed);
+	(0..len).map(|_| Frame::new(r.noise() * amp, r.noise() * amp)).collect()
+}
